@@ -119,8 +119,13 @@ def parseName (m : Mask) (name : Str) : Option Mask :=
 def parseOne (m : Mask) (event : Str) : Option Mask :=
   (splitOnChar ',' (toLower event)).foldlM parseName m
 
-/-- `ParseEventMask(events...)`; `none` = the "unknown event" error. ASCII lower-casing:
-    the model's domain is ASCII input (non-ASCII never matches a name either way). -/
+/-- `ParseEventMask(events...)`; `none` = the "unknown event" error. ASCII lower-casing and
+    ASCII/Latin-1 `TrimSpace`: the model's domain is ASCII input. Outside it the real code is
+    more liberal than this model — Go's `strings.ToLower` maps some non-ASCII letters onto ASCII
+    ones (`ParseEventMask("StartContaİner")`, with U+0130, returns START_CONTAINER) and
+    `strings.TrimSpace` also strips Unicode spaces such as U+2003 — so a non-ASCII string CAN
+    match a name in Go where `parse` returns `none`. The C14 driver treats non-ASCII input as
+    excluded and records what the real code did. -/
 def parse (events : List Str) : Option Mask := events.foldlM parseOne 0#32
 
 end Nri.Events
